@@ -167,7 +167,7 @@ func (r *Run) collect(sweeps []Sweep) {
 		if u.fc != nil {
 			li := analyzeLoops(u.fn)
 			for n := range u.fc.Loops {
-				if n >= len(li.heads) {
+				if n >= len(li.heads)+e.iteratingCalls(u.fn) {
 					r.addSynthetic(u.fn.String()+fmt.Sprintf("#loop%d.bound", n), "binding", "loop contract binds to a loop", fmt.Sprintf("function has %d loops", len(li.heads)))
 				}
 			}
